@@ -864,13 +864,13 @@ PROPS = {
         "property_modules": ["Zlink.Properties.C03"],
         "lean_modules": ["Zlink.Properties.C03"],
         "theorems": ["C03.C03_cap_independent", "C03.C03_model_eq_reference", "C03.C03_escape_table", "C03.C03_no_raw_control",
-                     "C03.C03_no_nul", "C03.C03_keys"],
+                     "C03.C03_no_nul", "C03.C03_valid_utf8", "C03.C03_frames_valid_utf8", "C03.C03_keys"],
         "run": run_ser, "search": search_ser, "trusted_base": TB_COMMON,
         "assumptions": [
             "serde_json::to_vec is the reference for `compact JSON`; the Lean reference printer `Ser.render` is validated against it on every explored value (three-way comparison), not proved equal to it",
             "digit strings of itoa (integers) and ryu (floats) are carried as opaque texts (recorded from Rust's own Display for integers, from serde_json for floats) and assumed printable",
             "Serialize implementations announce honest length hints (a sequence that announces Some(0) and then emits elements is malformed in serde_json and zlink alike); WF is an explicit decidable predicate",
-            "valid UTF-8 of the output is checked on every explored value by the oracle (Utf8.valid), not yet proved as a theorem (C03_valid_utf8 is the stated gap)",
+            "valid UTF-8 of the output: proved (C03_valid_utf8, C03_frames_valid_utf8) for values whose strings are well-formed UTF-8 and whose number texts are ASCII, and checked on every explored value by the oracle (Utf8.valid)",
         ],
     },
     "C08": {
